@@ -9,6 +9,7 @@ import AslProofs.XdlPrefix
 import AslProofs.XdlPrefixStr
 import AslProofs.NumValDefs
 import AslProofs.IntLit
+import AslProofs.XdlComment
 /-!
 # C06 — JSON/XDL decoding is total, memory-safe, chunk-independent and RFC 8259 conformant
 
@@ -226,6 +227,71 @@ example : Rfc8259.SerDoc
   exact Rfc8259.SerV.obj _ _
     (Rfc8259.SerMembers.one [97] _ [] [97] [] [] _ [] hws (.plain 97 [] [] (by unfold Rfc8259.unescaped; decide) .nil) hws hws
       (Rfc8259.SerV.arr _ _ e) hws)
+
+/-! ## XDL comments: the grammar the filter accepts, and its transparency
+
+`XdlCmt.BlockBody b` (lean/AslProofs/XdlComment.lean) is the set of texts that may stand between `/*` and the
+closing `*/`, written as a grammar: a byte other than `*`, or a `*` TOGETHER WITH the byte after it provided
+that byte is not `/` (the filter pops ENDCOMMENT without looking at that byte again, so in `/***/` the third
+`*` is swallowed and the comment stays open).  `XdlCmt.LineBody` = no LF / CR.  "Outside" = after any prefix
+`a` that leaves the parser not in a comment and not in the states STRING / QPROPERTY / ESCAPE (so also in the
+middle of a number, an identifier or an unquoted name, where the code accepts comments too). -/
+
+open AslProofs.XdlCmt in
+/-- a block comment of that grammar at any such position is invisible: the document decodes to what it decodes
+    to with the comment removed (value, rejection and memory safety alike) -/
+theorem block_comment_transparent (a b rest : Bytes) (q : PState) (ha : loop init a = some (false, q))
+    (hc : q.inComment = false) (h1 : q.state ≠ .STRING) (h2 : q.state ≠ .QPROPERTY) (h3 : q.state ≠ .ESCAPE)
+    (hb : BlockBody b) (na : (0 : UInt8) ∉ a) (nb : (0 : UInt8) ∉ b) (nr : (0 : UInt8) ∉ rest) :
+    decode (a ++ 47 :: 42 :: (b ++ 42 :: 47 :: rest)) = decode (a ++ rest) := by
+  obtain ⟨f, q', hl, hi, _⟩ := loop_ok a init inv_init
+  rw [ha] at hl; cases hl
+  have ho := outside_of_inv q hi hc h1 h2 h3
+  have n1 : (0 : UInt8) ∉ a ++ 47 :: 42 :: (b ++ 42 :: 47 :: rest) := by simp [na, nb, nr]
+  have n2 : (0 : UInt8) ∉ a ++ rest := by simp [na, nr]
+  have e : parse init (a ++ 47 :: 42 :: (b ++ 42 :: 47 :: rest)) = parse init (a ++ rest) := by
+    simp only [parse, show init.state ≠ .ERR by decide, if_false, cstr_of_nonul _ n1, cstr_of_nonul _ n2,
+      loop_append, ha, block_skip q ho b hb rest]
+  simp only [decode, decodeFrom, e]
+
+open AslProofs.XdlCmt in
+/-- a line comment `//…` up to LF or CR at any such position is read as that LF / CR alone -/
+theorem line_comment_transparent (a b rest : Bytes) (nl : UInt8) (q : PState) (ha : loop init a = some (false, q))
+    (hc : q.inComment = false) (h1 : q.state ≠ .STRING) (h2 : q.state ≠ .QPROPERTY) (h3 : q.state ≠ .ESCAPE)
+    (hb : LineBody b) (hnl : nl = 10 ∨ nl = 13) (na : (0 : UInt8) ∉ a) (nb : (0 : UInt8) ∉ b) (nr : (0 : UInt8) ∉ rest) :
+    decode (a ++ 47 :: 47 :: (b ++ nl :: rest)) = decode (a ++ nl :: rest) := by
+  obtain ⟨f, q', hl, hi, _⟩ := loop_ok a init inv_init
+  rw [ha] at hl; cases hl
+  have ho := outside_of_inv q hi hc h1 h2 h3
+  have hn0 : (0 : UInt8) ≠ nl := by rcases hnl with h | h <;> subst h <;> decide
+  have n1 : (0 : UInt8) ∉ a ++ 47 :: 47 :: (b ++ nl :: rest) := by simp [na, nb, nr, hn0]
+  have n2 : (0 : UInt8) ∉ a ++ nl :: rest := by simp [na, nr, hn0]
+  have e : parse init (a ++ 47 :: 47 :: (b ++ nl :: rest)) = parse init (a ++ nl :: rest) := by
+    simp only [parse, show init.state ≠ .ERR by decide, if_false, cstr_of_nonul _ n1, cstr_of_nonul _ n2,
+      loop_append, ha, line_skip q ho b hb nl hnl rest]
+  simp only [decode, decodeFrom, e]
+
+open AslProofs.XdlCmt in
+/-- every RFC 8259 document is still accepted, with the same value, behind a leading block comment -/
+theorem rfc_accept_after_comment (v : JV) (w b : Bytes) (h : Rfc8259.SerDoc v w) (hd : Rfc8259.depth v ≤ 1000)
+    (hb : BlockBody b) (nb : (0 : UInt8) ∉ b) :
+    decode (47 :: 42 :: (b ++ 42 :: 47 :: w)) = some (some (Rfc8259.norm v)) := by
+  have := block_comment_transparent [] b w init rfl rfl (by decide) (by decide) (by decide) hb (by simp) nb
+    (AslProofs.XdlRfc.serDoc_nonul h)
+  simpa [rfc_accept v w h hd] using this
+
+/-- non-vacuity: ` * x ** ` is a comment body (a `*` followed by a blank, and `**`), `x` is a line body; the
+    hypotheses of the two theorems hold after `[1` (state INT) -/
+example : AslProofs.XdlCmt.BlockBody [32, 42, 32, 120, 32, 42, 42, 32] :=
+  .other 32 _ (by decide) (.star 32 _ (by decide) (.other 120 _ (by decide) (.other 32 _ (by decide)
+    (.star 42 _ (by decide) (.other 32 _ (by decide) .nil)))))
+example : ∃ q, loop init [91, 49] = some (false, q) ∧ q.inComment = false ∧ q.state = .INT := ⟨_, rfl, rfl, rfl⟩
+example : AslProofs.XdlCmt.LineBody [120] := by intro c h; simp at h; subst h; decide
+/-- the decoder really reads comments, and `/***/` is an unterminated comment for it while `/**/` is closed -/
+example : decode [91, 49, 47, 42, 120, 42, 47, 93] = some (some (.arr [.int 1])) := by rfl        -- [1/*x*/]
+example : decode [91, 49, 93, 47, 42, 42, 47] = some (some (.arr [.int 1])) := by rfl             -- [1]/**/
+example : decode [91, 49, 93, 47, 42, 42, 42, 47] = some none := by rfl                           -- [1]/***/
+example : decode [91, 49, 47, 47, 120, 10, 93] = some (some (.arr [.int 1])) := by rfl            -- [1//x\n]
 
 /-! ## prefix rejection -/
 
